@@ -88,6 +88,21 @@ class C15(Property):
                     s.add("J.0.1.2")
                 s.add("H.1", "S.1")                    # only node 1 lives; nothing is delivered
             out.append(s.line())
+        # silence of a peer that ADVERTISED another connected node's address as one of its own (two nodes behind one public address both
+        # list it): it is removed at its deadline and re-dialled on the address it was seen at, like any other
+        for _ in range(8 if thorough else 2):
+            to = rng.choice([10, 20, 60])
+            s = nu.Scenario()
+            s.node(1, mode="tun-router", pt=to, claims=["0a000100/24"])
+            s.node(2, mode="tun-router", pt=to, claims=["0a000200/24"], adv=3)
+            s.node(3, mode="tun-router", pt=to, claims=["0a000300/24"])
+            s.add("C.2.1", "A", "C.3.1", "A")
+            s.tick(rng.randrange(1, to + 5))
+            s.add("X.9999", "M.2.1")
+            for k in range(to + 4):
+                s.t += 1
+                s.add("T.%d" % s.t, "H.1", "S.1", "H.3", "A")
+            out.append(s.line())
         # a peer RESTARTS on the same address with a shorter timeout and connects again before its old entry has expired: from then
         # on the shorter timeout it now advertises governs the announcement interval - nobody may time anybody out afterwards
         for after in ([5, 40, 85, 100, 170, 260] if thorough else [40, 85, 170]):
